@@ -457,6 +457,14 @@ void dyn_array_reserve(DynArray* arr, int64_t new_capacity) {
         return;
     }
     
+    /* Struct array before its first push: the element size is not known yet and
+     * the store is allocated by the first push (capacity * struct size).
+     * realloc(p, 0) would free the store and leave arr->data dangling. */
+    if (arr->elem_size == 0) {
+        arr->capacity = new_capacity;
+        return;
+    }
+
     void* new_data = realloc(arr->data, new_capacity * arr->elem_size);
     if (new_data == NULL) {
         fprintf(stderr, "DynArray: Out of memory reserving capacity\n");
